@@ -245,7 +245,7 @@ C12 discharges it: `write_read_table` (the description is parsed into the encode
 `enc_table_eq_dec_table` and `encode_decode_interleaved` (the two-state loop returns the symbols). -/
 def FseWeightsContract (fseEnc : List Nat → Except Fault (List Nat)) : Prop :=
   ∀ (ws bytes : List Nat), fseEnc ws = .ok bytes → bytes.length < 128 →
-    ∀ (st : DecTable) (tail : List Nat),
+    ∀ (st : DecTable) (tail : List Nat), (∀ b ∈ tail, b < 256) →
       readWeights st (bytes.length :: (bytes ++ tail)) = ({ st with weights := ws }, .ok (1 + bytes.length))
 
 /-- **FSE-compressed weight description round trip** (more than 16 transmitted weights), under the
@@ -255,7 +255,7 @@ lengths, the dropped last weight re-inferred, the description exactly consumed. 
 theorem fse_roundtrip (fseEnc : List Nat → Except Fault (List Nat)) (hfse : FseWeightsContract fseEnc)
     (t : EncTable) (M : Nat) (k : KraftTable t M) (hfseform : t.codes.length - 1 > 16)
     (bytes : List Nat) (henc : fseEnc (encWeights t M).dropLast = .ok bytes) (hsmall : bytes.length < 128)
-    (st : DecTable) (tail : List Nat) :
+    (st : DecTable) (tail : List Nat) (htail : ∀ b ∈ tail, b < 256) :
     writeTable fseEnc t = .ok (bytes.length :: bytes) ∧
       ∃ st', buildDecoder st ((bytes.length :: bytes) ++ tail) = (st', .ok (bytes.length :: bytes).length) ∧
         st'.bits = t.codes.map (·.2) ∧ st'.maxNumBits = M := by
@@ -270,7 +270,7 @@ theorem fse_roundtrip (fseEnc : List Nat → Except Fault (List Nat)) (hfse : Fs
     rw [hwAll]
     simp only [huse, henc, hok, if_true, Bool.not_true, Bool.false_eq_true, if_false]
   refine ⟨hwrite, ?_⟩
-  have hread := hfse _ _ henc hsmall { st with decode := #[] } tail
+  have hread := hfse _ _ henc hsmall { st with decode := #[] } tail htail
   obtain ⟨st', hbuild, hbits, hmb⟩ := build_after_read k
     { decode := #[], weights := (encWeights t M).dropLast, maxNumBits := st.maxNumBits, bits := st.bits } rfl
   refine ⟨st', ?_, hbits, hmb⟩
